@@ -106,3 +106,26 @@ case("jump-from-operand-nested-for", ["C01", "C02"],
      "var acc = 0\nfor i in 3 {\n  for j in 3 {\n    acc = acc + (i * 10 + { if j == 1 { continue }; j })\n  }\n}\nprintln(acc)\n", ("out", "66\n"))
 case("return-from-operand", ["C01", "C02", "C23"],
      "fn f(n: int) -> int {\n  let x = 1 + { if n > 2 { return 100 }; n }\n  x\n}\nprintln(f(1) .. \" \" .. f(5))\nfor i in 2 { println(f(i + 2)) }\n", ("out", "2 100\n3\n100\n"))
+
+
+# ---- pairs of consecutive string operations (state left behind by the resumable, one-byte-per-
+# step comparison must not leak into the next operation; the second operation sits in a call
+# argument so that leaked operands would shift the arguments)
+def _strop_cases():
+    import operator
+    ops = {"==": operator.eq, "!=": operator.ne, "<": operator.lt, "<=": operator.le, ">": operator.gt, ">=": operator.ge}
+    pairs = [("abra", "abra"), ("ab", "abra"), ("abra", "ab"), ("abra", "abrz"), ("", "a"), ("left", "right")]
+    n = 0
+    for o1, f1 in ops.items():
+        for (a, b) in pairs:
+            for o2, f2 in ops.items():
+                (u, v) = pairs[(n * 5 + 3) % len(pairs)]
+                n += 1
+                src = ("fn describe(n: int, same: bool) -> int {\n  if same { n + 1 } else { n - 1 }\n}\n"
+                       "let a = \"%s\"\nlet b = \"%s\"\nlet ok = a %s b\nlet u = \"%s\"\nlet v = \"%s\"\n"
+                       "let r = describe(41, u %s v)\nprintln(r)\nprintln(ok)\nprintln(u .. v)\n" % (a, b, o1, u, v, o2))
+                exp = "%d\n%s\n%s\n" % (42 if f2(u.encode(), v.encode()) else 40, "true" if f1(a.encode(), b.encode()) else "false", u + v)
+                case("strop %s %s|%s then %s %s|%s" % (o1, a, b, o2, u, v), ["C01", "C17"], src, ("out", exp))
+
+
+_strop_cases()
